@@ -114,6 +114,7 @@ type scanCfg struct {
 	twoEx     bool
 	nStand    int
 	nDet      int
+	paths []string // PathsToExtract (explicit-path mode of the walker)
 	// cancelAt: index into the event log at which the context is cancelled (-1 never, -2 before Scan)
 	cancelAt int
 }
@@ -170,7 +171,7 @@ func runScan(c scanCfg) scanOut {
 		roots = append(roots, &scalibrfs.ScanRoot{FS: memfs.New(r), Path: ""})
 	}
 	cfg := &scalibr.ScanConfig{FilesystemExtractors: exs, StandaloneExtractors: sts, Detectors: dets, Capabilities: &plugin.Capabilities{},
-		ScanRoots: roots, MaxInodes: c.maxInodes, MaxFileSize: c.maxSize, Stats: col}
+		ScanRoots: roots, MaxInodes: c.maxInodes, MaxFileSize: c.maxSize, Stats: col, PathsToExtract: c.paths}
 	if c.cancelAt == -2 {
 		cancel()
 	}
@@ -309,8 +310,29 @@ func main() {
 				}
 			}
 			// (C) every cancellation point
-			for _, pl := range []struct{ st, det int }{{0, 0}, {1, 1}, {2, 2}} {
+			// explicit-path mode: the first directory plus the first required file of the tree
+			var reqPaths []string
+			memfs.Walk(root, func(p string, nd *memfs.Node) {
+				if len(reqPaths) == 0 && nd.Kind == memfs.Dir {
+					reqPaths = append(reqPaths, p)
+				}
+			})
+			memfs.Walk(root, func(p string, nd *memfs.Node) {
+				if len(reqPaths) == 1 && nd.Kind == memfs.File && nd.Name != "junk" {
+					reqPaths = append(reqPaths, p)
+				}
+			})
+			for _, pl := range []struct {
+				st, det int
+				paths   bool
+			}{{0, 0, false}, {1, 1, false}, {2, 2, false}, {1, 1, true}} {
+				if pl.paths && len(reqPaths) == 0 {
+					continue
+				}
 				base := scanCfg{roots: []*memfs.Node{root}, cancelAt: -1, twoEx: true, nStand: pl.st, nDet: pl.det}
+				if pl.paths {
+					base.paths = reqPaths
+				}
 				full := runScan(base)
 				fullWork := work(full.events)
 				for at := -2; at < len(full.events); at++ {
@@ -321,7 +343,7 @@ func main() {
 					c.cancelAt = at
 					o := runScan(c)
 					r.Evals.Add(1)
-					rp := map[string]any{"tree": ts, "standalone": pl.st, "detectors": pl.det, "cancel_at_event": at}
+					rp := map[string]any{"tree": ts, "standalone": pl.st, "detectors": pl.det, "cancel_at_event": at, "paths_to_extract": base.paths}
 					if o.panicked != "" {
 						r.Violation("panic", o.panicked, rp)
 						continue
@@ -393,7 +415,7 @@ func main() {
 		r.Set(fmt.Sprintf("trees_with_%d_nodes", n), len(trees))
 	}
 	imagePart(r)
-	r.Finish(fmt.Sprintf("every tree with <=%d nodes (dirs a,b; p1.txt size 1, p2.txt size 5 required by two extractors, junk): (A) MaxInodes in {0,1,n-1,n,n+1} with 1 and 2 roots; (B) MaxFileSize in {0,1,s-1,s,s+1} for every file size s; (C) cancellation at every event of the uncancelled run (inode visit, Extract, AfterExtractorRun, standalone extractor, detector; and before Scan) for 0/1/2 standalone extractors and detectors; (D) images: file size L-1,L,L+1 x MaxFileBytes L in {1,2,5,4096} x layer position x older version underneath. non-trivial = limit actually hit / work actually cut", maxNodes), complete)
+	r.Finish(fmt.Sprintf("every tree with <=%d nodes (dirs a,b; p1.txt size 1, p2.txt size 5 required by two extractors, junk): (A) MaxInodes in {0,1,n-1,n,n+1} with 1 and 2 roots; (B) MaxFileSize in {0,1,s-1,s,s+1} for every file size s; (C) cancellation at every event of the uncancelled run (inode visit, Extract, AfterExtractorRun, standalone extractor, detector; and before Scan) for 0/1/2 standalone extractors and detectors, whole-tree walk and explicit-path mode (first directory + first required file requested); (D) images: file size L-1,L,L+1 x MaxFileBytes L in {1,2,5,4096} x layer position x older version underneath. non-trivial = limit actually hit / work actually cut", maxNodes), complete)
 }
 
 func evAt(evs []event, at int) any {
